@@ -268,7 +268,8 @@ def get_atom_masses(lammps_data: Union[str, Path], atom_style) -> np.ndarray:
     masses = np.zeros((n_atoms, 1))
     for atom_type in range(1, n_atom_types + 1):
         idx = np.where(atoms[:, col[atom_style]] == atom_type)[0]
-        masses[idx] = atom_type_masses[atom_type - 1, 1]
+        # the rows of the Masses section ("type-id mass") come in any order
+        masses[idx] = atom_type_masses[atom_type_masses[:, 0] == atom_type, 1]
     return masses
 
 
